@@ -1,5 +1,6 @@
 import BareProofs.C15Spec
 import BareProofs.C15Text
+import BareProofs.C15Str
 
 /-!
 # C15 — array, object and string functions obey their sequence / map / string contracts
@@ -7,6 +8,18 @@ import BareProofs.C15Text
 Model: `BareModel/Lib.lean` (mirror of library.py + value_args_validate + the call wrapper, argument models and failure
 values read from the generated tables) and `BareModel/LibSpec.lean` (documented signatures and reference operations).
 All theorems hold for every heap, every argument list (well-typed or not, any length) and every history.
+
+* `sig_table`, `fail_table`, `raw_table`   the generated argument models / failure values / safe sets are the documented ones
+* `bodies_shape` (C15Lemmas)               every function of the table: a store goes to the first argument, only mutators store, …
+* `lib_frame`, `lib_frame_kind`, `lib_length`   frame: only the first argument of a mutator changes; the heap only grows
+* `lib_fresh`                              copies / slices / new containers are new cells
+* `lib_fail_unchanged`, `lib_invalid_fails` failing calls: documented failure value, heap unchanged; invalid arguments do fail
+* `validate_num` (C15Spec)                 a validated index is integral and non-negative (or the default)
+* `lib_spec_partial`                       mirror = reference operations on natural indices (see its comment for what is left out)
+* `history_refines`, `history_env`, `history_frame`, `alias_same`   lifted to all histories
+* `dictGet_dictSet`, `dictGet_dictDel`, `dictSet_keys`   the map contract
+* `findFrom_spec`, `lastMatch_spec`, `split_join`, `replace_split_join` (C15Str)   find = least match, rfind = greatest, split/join/replace
+* `regexEscape_literal`, `urlEncode_reversible`, `quoteByte_ascii` (C15Text)
 -/
 
 namespace C15
@@ -370,8 +383,19 @@ macro "same_body" : tactic => `(tactic| exact eff_eq_of_body _ (by decide) _ _ _
 /-- **Specification.** For every function name, every argument list and every heap the Python-shaped model of the call
 (argument models and failure values from the working tree, `int()` truncation, explicit range tests, Python item access with
 wrap-around, clamping slices, `range` loops, `str.find`/`rfind` with adjusted bounds) is the reference operation of the
-documented contract on natural-number indices: same result, same failure value, same new heap. -/
-theorem lib_spec (f : String) (args : List Value) (h : Heap) : eff f args h = Spec.specEff f args h := by
+documented contract on natural-number indices: same result, same failure value, same new heap.
+
+`_partial`: the full property speaks about every call of every array*/object*/string*/regexEscape/urlEncode* function. Proved
+here: the equation for **all** names, arguments and heaps — but on the following inputs both sides are the outcome
+`unmodelled` (the model makes no claim, the correspondence harness skips the result): the match-function form of
+`arrayIndexOf`/`arrayLastIndexOf`; `arrayJoin` over non-integral numbers, datetimes, arrays or objects (needs float `repr`, the
+time zone, JSON); `stringLower`/`stringUpper` on non-ASCII text; `stringFromCharCode` of a surrogate; comparison through a cyclic
+or dangling heap (F18); `arraySort`, `stringNew` and every name outside the table. For functions whose Python body already is a
+plain list / assoc-list / code-point operation the reference operation is that same operation; its contract is stated
+separately (`dictGet_dictSet`, `dictGet_dictDel`, `dictSet_keys`, `findFrom_spec`, `lastMatch_spec`, `split_join`,
+`replace_split_join`, `regexEscape_literal`, `urlEncode_reversible`); `stringTrim`, `stringLower/Upper`, `stringStartsWith/EndsWith`
+have no separate contract theorem (they are `dropWhile isSpace`, ASCII case mapping, `isPrefixOf`/`isSuffixOf` by definition). -/
+theorem lib_spec_partial (f : String) (args : List Value) (h : Heap) : eff f args h = Spec.specEff f args h := by
   by_cases hm : f ∈ modelled
   · simp only [modelled, bodies, List.map_cons, List.map_nil, List.mem_cons, List.not_mem_nil, or_false] at hm
     rcases hm with rfl | rfl | rfl | rfl | rfl | rfl | rfl | rfl | rfl | rfl | rfl | rfl | rfl | rfl | rfl | rfl | rfl | rfl | rfl |
@@ -434,7 +458,7 @@ theorem lib_spec (f : String) (args : List Value) (h : Heap) : eff f args h = Sp
 /-- the same for the call through the wrapper -/
 theorem lib_eq_specLib : lib = Spec.specLib := by
   funext f args h
-  simp only [lib, Spec.specLib, lib_spec]
+  simp only [lib, Spec.specLib, lib_spec_partial]
 
 /-! ## histories -/
 
